@@ -71,8 +71,8 @@ func c13LocJudge(c *Ctx, asks []c13LocAsk) int {
 // time under Eval) and the exhaustive small trees (every node kind in every child slot, each node with its own location).
 func c13SpecLoc(c *Ctx) {
 	r := c.R
-	n := 1200
-	stride := 9
+	n := 1000
+	stride := 18
 	if c.Thorough() {
 		n = 30000
 		stride = 2
